@@ -23,7 +23,7 @@ claim("C05",
       "Oracle tables in /verif/harness/{header,packet}.rs are transcribed by hand from IANA/RFC text.",
       "Kani/CBMC bounded model checking of the real conversion functions, full finite domain symbolic", "DESIGN.md section 3 C05")
 claim("C06",
-      "Encoders decided for every value of each width (u8, u16, u32, u64 as one symbolic variable each) against a shortest-big-endian reference; decoders for every byte string of length 0..10; typed accessors on a packet for every pair of u32 values; text options for every byte string up to 2 bytes (3 thorough) through std's real UTF-8 validator against an independent RFC 3629 case table.",
+      "Encoders decided for every value of each width (u8, u16, u32, u64 as one symbolic variable each) against a shortest-big-endian reference; decoders for every byte string of length 0..10; typed accessors on a packet for every pair of u32 values; text options for every byte string up to 3 bytes (4 thorough) against an independent RFC 3629 case table, with a byte-loop model standing in for std's validator.",
       MODEL + FMT + "Strings longer than 3 bytes are outside.",
       "Kani/CBMC bounded model checking, full-width symbolic integers", "DESIGN.md section 3 C06")
 claim("C07",
